@@ -168,12 +168,18 @@ impl Interp {
 
     /// Polls until Pending / terminal / panic; returns the last event.
     fn poll_until_pending(&mut self) -> Option<Ev<HarnessError>> {
+        // Every data frame carries at least one byte of a finite history, so this ends; the bound
+        // only guards against a body that yields empty frames forever.
         let mut last = None;
-        for _ in 0..1_000_000 {
+        let mut empties = 0u32;
+        loop {
             let ev = self.step(true)?;
             let stop = !matches!(ev, Ev::Data(_));
+            if matches!(ev, Ev::Data(0)) {
+                empties += 1;
+            }
             last = Some(ev);
-            if stop {
+            if stop || empties > 100_000 {
                 break;
             }
         }
@@ -694,8 +700,10 @@ pub fn repeated_pattern_strategy(gzip: bool) -> BoxedStrategy<SCase> {
             let mut bytes = 0u64;
             'outer: for _ in 0..times {
                 for o in &pattern {
-                    if let Op::Write(n) | Op::WriteAll(n) = o {
-                        bytes += *n as u64;
+                    match o {
+                        Op::Write(n) | Op::WriteAll(n) => bytes += *n as u64,
+                        Op::WriteV(a, b) => bytes += *a as u64 + *b as u64,
+                        _ => {}
                     }
                     if bytes > 600_000 || ops.len() > 200 {
                         break 'outer;
